@@ -210,6 +210,8 @@ static json runOne(const std::vector<Entry> &reg, const json &cs, const RunSpec 
     ob::PlannerPtr p = e->make(pr.si);
     p->setProblemDefinition(pd);
     setRange(p, rangeFor(rs.range));
+    if (e->flags & F_MULTILEVEL)
+        p->setup();  // the multilevel planners do not set themselves up in solve() (documented: setup() first)
     Budget b;
     b.k = rs.budget;
     b.pdef = pd.get();
@@ -469,6 +471,8 @@ static void runLifecycle(const std::vector<Entry> &reg, const json &job, vt::Tra
             std::set<const ob::Path *> before;
             for (auto &s : pd->getSolutions())
                 before.insert(s.path_.get());
+            if ((e->flags & F_MULTILEVEL) && !planner->isSetup())
+                planner->setup();  // documented usage: the multilevel planners do not set themselves up in solve()
             ob::PlannerStatus st = planner->solve(b.ptc());
             pr.pdef = pd;
             ev["k"] = kname;
@@ -832,6 +836,8 @@ int main(int argc, char **argv)
             pd->setOptimizationObjective(std::make_shared<ob::PathLengthOptimizationObjective>(pr.si));
         ob::PlannerPtr p = e->make(pr.si);
         p->setProblemDefinition(pd);
+        if (e->flags & F_MULTILEVEL)
+            p->setup();
         startWatchdog(60000, 900000);
         std::string fp;
         char buf[64];
